@@ -215,6 +215,49 @@ def d1_d2_ragged(ctx, committer, a_regen, r_regen):
     ctx.floor('C08 ragged state-change sites', nsites, 8)
 
 
+def _comprehension_filter(ctx, f, disp):
+    """Comprehension form of the README loop: the dispatcher is called in the element of a comprehension (alone or as one
+    component of a tuple), and every comprehension that consumes that list filters on `<that component> is not None`."""
+    from ._trunc import folder
+    comps = (ast.ListComp, ast.GeneratorExp)
+    calls = [c for c, cal in ctx.E.callees(f) if cal is disp]
+    c1s = [n for n in own_nodes(f.node) if isinstance(n, comps) and any(x is c for c in calls for x in ast.walk(n.elt))]
+    if len(c1s) != 1 or len(calls) != 1:
+        return False
+    c1 = c1s[0]
+    if c1.elt is calls[0]:
+        pos = None
+    elif isinstance(c1.elt, ast.Tuple) and any(e is calls[0] for e in c1.elt.elts):
+        pos = [i for i, e in enumerate(c1.elt.elts) if e is calls[0]][0]
+    else:
+        return False
+    holder = [st for st in own_nodes(f.node) if isinstance(st, ast.Assign) and st.value is c1 and len(st.targets) == 1
+              and isinstance(st.targets[0], ast.Name)]
+    if not holder:
+        return False
+    x = holder[0].targets[0].id
+    uses = [n for n in own_nodes(f.node) if isinstance(n, ast.Name) and n.id == x and isinstance(n.ctx, ast.Load)]
+    consumers = [n for n in own_nodes(f.node) if isinstance(n, comps + (ast.SetComp, ast.DictComp)) and
+                 any(g.iter is u for g in n.generators for u in uses)]
+    if not uses or len(consumers) != len(uses):
+        return False                # the list escapes unfiltered somewhere
+    for c2 in consumers:
+        g = [g for g in c2.generators if any(g.iter is u for u in uses)][0]
+        t = g.target
+        if pos is not None:
+            if not (isinstance(t, ast.Tuple) and len(t.elts) > pos and isinstance(t.elts[pos], ast.Name)):
+                return False
+            v = t.elts[pos].id
+        else:
+            if not isinstance(t, ast.Name):
+                return False
+            v = t.id
+        ft = folder({v: None})
+        if not any(ft(test) is False for test in g.ifs):
+            return False
+    return True
+
+
 def d3_single_source(ctx):
     for modname, regname in (('array', 'readcodearray'), ('raggedarray', 'readcoderaggedarray')):
         m = ctx.repo.module(modname)
@@ -258,6 +301,8 @@ def d3_single_source(ctx):
             if cvars and adds:
                 from ._trunc import folder
                 ok = all(runs_under(f, a_, folder({cvars[0]: None})) is False for a_ in adds)
+        if not ok and not loops:
+            ok = _comprehension_filter(ctx, f, disp0)
         ctx.decide(ok, 'R-SIB', 'D3', f, None, 'skips-withheld', f'{modname}.readcodetxt includes exactly the offered languages',
                    detail='the `is not None` filter on generated code vanished')
     nt = ctx.repo.func('array.numtypedescriptiontxt')
